@@ -1,5 +1,6 @@
-/- line-protocol driver for C05: the shared key life-cycle script (same lines as harness/drv/src/bin/c05.rs) -/
-import Compio.Model.KeyLifeScript
+/- line-protocol driver for C05: the shared key life-cycle script (same lines as harness/drv/src/bin/c05.rs) plus the C05-only
+   lines (submit flavours of the runtime cases, multi-descriptor world) -/
+import Compio.Model.KeyLifeScript05
 
 def main : IO Unit :=
-  Compio.stdinLoop Compio.KeyLife.Script.stepLine (Compio.KeyLife.Script.Sim.init .iour 1024)
+  Compio.stdinLoop Compio.KeyLife.Script05.stepLine05 Compio.KeyLife.Script05.S05.init
